@@ -176,10 +176,15 @@ func roundtripPlan(sig, tier string) []Unit {
 	def := DefaultOptions()
 	n := numItems(sig)
 	// P1: every resource x scope x multiset of <= 2 items, fresh stream each
+	// (every container pair x every single archetype; a reduced container set x every multiset of 2)
 	ms := multisets2(n)
 	for r := 0; r < NumRes; r++ {
 		for s := 0; s < NumScope; s++ {
+			reduced := (r == 0 || r == 1 || r == 5) && (s == 0 || s == 1 || s == 6)
 			for _, items := range ms {
+				if len(items) == 2 && !(reduced || thorough && (r+s)%3 == 0) {
+					continue
+				}
 				units = append(units, Unit{Opts: def, Mon: mon, Tag: "P1", History: []Letter{one(sig, r, s, items...)}})
 			}
 		}
@@ -539,7 +544,7 @@ func framingPlan(tier string) []Unit {
 			a := historyAlphabet(sig, false)
 			mixed = append(mixed, a[1], a[2], a[5])
 		}
-		mixed = append(mixed, Letter{Op: "resetstats"})
+		mixed = append(mixed, Letter{Op: "resetstats"}, Letter{Op: "sizestats"})
 		depth := 3
 		if thorough {
 			depth = 4
